@@ -26,6 +26,32 @@ structure Dep where
   idx  : Nat := 0        -- identity of the deposit message (position in the block); never inspected by the code
 deriving DecidableEq, Repr
 
+/-! ### `PropStatus`: how the database's answer is classified
+
+  The fault stream of the store model (`Store.faults`, one Bool per call) says "this call fails". What makes a READ
+  fail is decided here: the database returns the stored bytes, or an error of some kind (possibly wrapped); only
+  `ErrNotFound` means "nothing recorded" (status missing, no error) — every other kind, in particular a closed
+  database, is an error, so that the deposit is withheld (`isExecuted_withholds`) and nothing is selected. -/
+
+inductive DbErr | notFound | closed | readOnly | snapshotReleased | iterReleased | corrupted | generic
+deriving DecidableEq, Repr
+
+/-- `PropStore.PropStatus` on what `GetByKey` returned; `none` = an error is returned to the caller -/
+def propStatus : Except DbErr Status → Option Status
+  | .ok v => some v
+  | .error .notFound => some .missing
+  | .error _ => none
+
+/-- PPropStatus: a stored status is returned as it is; `missing` without error exactly for ErrNotFound; every other
+    database error is an error -/
+def PPropStatus (r : Except DbErr Status) (out : Option Status) : Prop :=
+  match r with
+  | .ok v => out = some v
+  | .error e => (e = .notFound → out = some .missing) ∧ (e ≠ .notFound → out = none)
+
+instance (r : Except DbErr Status) (out : Option Status) : Decidable (PPropStatus r out) := by
+  unfold PPropStatus; split <;> infer_instance
+
 /-- `isExecuted` of retry.go (and of RetryV1EventHandler): `none` = error (the deposit is withheld);
     a `pending` record is rewritten to `failed` so that the executor accepts the deposit again -/
 def isExecuted (s : Store) (k : Nat) : Option Bool × Store :=
